@@ -58,10 +58,10 @@ pub fn battery(seed: u64, size: usize) -> Vec<(String, u64)> {
         for rep in 0..size {
             let n = [1usize, 7, 300, 3000][(rep + ki) % 4];
             let mut m = [1usize, 10, 128, 1000][(rep + 2 * ki) % 4];
-            if matches!(k, UKind::RevF32 | UKind::RevF64) {
+            if k.is_rev() {
                 m = m.min(300);
             }
-            let ids = fresh_ids(&mut rng, n, 0);
+            let ids = if k.is_nohash() { ids_with_specials(&mut rng, n) } else { fresh_ids(&mut rng, n, 0) };
             let mut s = make_usk(*k, m);
             if rep % 2 == 0 {
                 s.sketch_slice(&ids);
